@@ -335,6 +335,33 @@ def argumentsFn (T : Table) (s : PState) (k : TokKind) (text : Bytes) : FnResult
 
 def lastName (l : List Node) : Option Bytes := (l.getLast?).map Node.name
 
+/-- a control command that takes a block and has arguments announces that an identifier follows -/
+def announce (s : PState) (d : CmdDef) : PState :=
+  if d.kind == .control && d.acceptChildren && !d.args.isEmpty then { s with expected := some [.identifier] } else s
+
+/-- name of the previous sibling (top level: last command of the result; in a block: last child) -/
+def prevName (s : PState) : Option Bytes :=
+  match s.stack with
+  | [] => lastName s.result
+  | f :: _ => lastName f.children
+
+/-- `must_follow` -/
+def followOk (d : CmdDef) (prev : Option Bytes) : Bool :=
+  match d.mustFollow with
+  | none => true
+  | some names =>
+    match prev with
+    | none => false
+    | some p => decide (p ∈ names)
+
+/-- the new command becomes the current one (child of the current block owner, if any) -/
+def pushCommand (s1 : PState) (d : CmdDef) : FnResult :=
+  match s1.stack with
+  | [] => .ret true { s1 with stack := [{ d := d, attach := .top }], cstate := .arguments } false
+  | f :: _ =>
+    if !f.d.acceptChildren then .err (.unexpectedAfter f.d.name) false
+    else .ret true { s1 with stack := { d := d, attach := .child } :: s1.stack, cstate := .arguments } false
+
 /-- `__command` when no command is being parsed: a closing brace or the name of a new command -/
 def startCommand (T : Table) (s : PState) (k : TokKind) (text : Bytes) : FnResult :=
   if k == .right_cbracket then
@@ -349,26 +376,9 @@ def startCommand (T : Table) (s : PState) (k : TokKind) (text : Bytes) : FnResul
     match getCommand T s.loaded text with
     | .error e => .err e false
     | .ok d =>
-      if d.kind == .test then .err (.firstCommandTest d.name) false else
-      let s1 := if d.kind == .control && d.acceptChildren && !d.args.isEmpty
-                then { s with expected := some [.identifier] } else s
-      let prev : Option Bytes :=
-        match s1.stack with
-        | [] => lastName s1.result
-        | f :: _ => lastName f.children
-      let followOk : Bool :=
-        match d.mustFollow with
-        | none => true
-        | some names => match prev with
-          | none => false
-          | some p => decide (p ∈ names)
-      if !followOk then .err (.mustFollow d.name) false else
-      match s1.stack with
-      | [] => .ret true { s1 with stack := [{ d := d, attach := .top }], cstate := .arguments } false
-      | f :: _ =>
-        if !f.d.acceptChildren then .err (.unexpectedAfter f.d.name) false
-        else .ret true { s1 with stack := { d := d, attach := .child } :: s1.stack,
-                                 cstate := .arguments } false
+      if d.kind == .test then .err (.firstCommandTest d.name) false
+      else if !followOk d (prevName (announce s d)) then .err (.mustFollow d.name) false
+      else pushCommand (announce s d) d
 
 /-- `__command` after the state function declined the token: `{` opens the block of a complete
     control, `;` ends an action -/
